@@ -160,13 +160,8 @@ Definition show_viol (v : viol) : string :=
 
 (* ---- known classes ---- *)
 
-Definition KEY_WRITE_ERROR : string := "announce-write-error-ends-loop-hunt-entry-stays".
-
-Definition explain (c : cfg) (s : state) (e : event) (v : viol) : option string :=
-  match v with
-  | VPeriodic | VStopUndone => if known_C13_write_error_kills s e then Some KEY_WRITE_ERROR else None
-  | _ => None
-  end.
+(* no recorded defect class is left (K1-K4 were repaired in /repo): every violated clause is reported *)
+Definition explain (c : cfg) (s : state) (e : event) (v : viol) : option string := None.
 
 (* per position: (position, violation, explanation) *)
 Fixpoint explain_all (c : cfg) (pos : nat) (tr : list (state * event * list frame)) (vs : list (list viol))
